@@ -76,6 +76,10 @@ func calleeName(cc *ssa.CallCommon) string {
 	if fa := fieldOfLoad(cc.Value); fa != "" {
 		return "field:" + fa
 	}
+	// closure held in a local variable assigned exactly once
+	if mc, ok := strip(cc.Value).(*ssa.MakeClosure); ok {
+		return fnName(mc.Fn.(*ssa.Function))
+	}
 	return "dynamic"
 }
 
@@ -286,8 +290,15 @@ func strip(v ssa.Value) ssa.Value {
 			if x.Op != token.MUL {
 				return v
 			}
-			a, ok := x.X.(*ssa.Alloc)
-			if !ok {
+			var a *ssa.Alloc
+			switch cell := x.X.(type) {
+			case *ssa.Alloc:
+				a = cell
+			case *ssa.FreeVar:
+				// captured variable: the cell bound in the enclosing function
+				a, _ = freeVarBinding(cell).(*ssa.Alloc)
+			}
+			if a == nil {
 				return v
 			}
 			w := singleStore(a)
@@ -299,6 +310,39 @@ func strip(v ssa.Value) ssa.Value {
 			return v
 		}
 	}
+}
+
+// freeVarBinding returns the value the enclosing function binds to the free
+// variable when it creates the closure (nil if the closure is created at more
+// than one site).
+func freeVarBinding(fv *ssa.FreeVar) ssa.Value {
+	fn := fv.Parent()
+	parent := fn.Parent()
+	if parent == nil {
+		return nil
+	}
+	idx := -1
+	for i, f := range fn.FreeVars {
+		if f == fv {
+			idx = i
+		}
+	}
+	var bound ssa.Value
+	n := 0
+	eachInstr(parent, func(in ssa.Instruction) {
+		if mc, ok := in.(*ssa.MakeClosure); ok && mc.Fn == fn && idx >= 0 && idx < len(mc.Bindings) {
+			bound = mc.Bindings[idx]
+			n++
+		}
+	})
+	if n != 1 {
+		return nil
+	}
+	// a closure nested two levels deep binds the parent's own free variable
+	if pfv, ok := bound.(*ssa.FreeVar); ok {
+		return freeVarBinding(pfv)
+	}
+	return bound
 }
 
 var singleStoreCache = map[*ssa.Alloc]ssa.Value{}
